@@ -186,6 +186,18 @@ def bnd_rejection(tier, seed):
                 fails.add("parser-terminates", {"text": mutated[:100]}, "from_sml did not terminate within 3 s")
             except Exception:
                 distinct += 1
+            # the closing bracket overwritten by another token: still no closing bracket for that item
+            for repl in ("]", ".", "X"):
+                n_eval += 1
+                mutated = sml[:p] + repl + sml[p + 1:]
+                try:
+                    res = with_alarm(3, lambda: Item.from_sml(mutated))
+                    fails.add("rejects.overwritten-closing-bracket", {"sml": mutated[:100], "at": p, "token": repl, "returned": repr(res)[:60]},
+                              "SML with one closing bracket overwritten by another token was accepted")
+                except Hang:
+                    fails.add("parser-terminates", {"text": mutated[:100]}, "from_sml did not terminate within 3 s")
+                except Exception:
+                    distinct += 1
         for name in ("XX", "U3", "LL", "AA"):
             n_eval += 1
             i = sml.find("< ") + 2
@@ -199,5 +211,5 @@ def bnd_rejection(tier, seed):
             except Exception:
                 distinct += 1
     return {"evaluations": n_eval, "distinct": max(distinct, 2), "failures": list(fails),
-            "scope": f"all token strings of length <= {depth} over {len(alphabet)} tokens (quick: 35% sample of the longest length); every single closing-bracket deletion and 4 type-name mutations of {len(trees)} valid SML texts",
+            "scope": f"all token strings of length <= {depth} over {len(alphabet)} tokens (quick: 35% sample of the longest length); every single closing-bracket deletion / overwrite by 3 other tokens and 4 type-name mutations of {len(trees)} valid SML texts",
             "rule": "distinct = inputs that the reference recogniser classifies as missing-close / unknown-type and that were rejected", "samples": [{"text": "< L ."}]}
